@@ -96,6 +96,7 @@ func (i *rangeAggIterator) Next(r *Step) bool {
 			Set:  s.Set,
 		})
 	}
+	r.Samples = verifOrderSamples(r.Samples)
 
 	return true
 }
